@@ -61,6 +61,16 @@ class SuperProxy:
         self.after = after_cls
 
 
+EXC_ATTRS: dict = {}  # (exception class, attribute) -> Ty, declared by contract modules
+
+
+class StarSeq:
+    """a symbolic sequence spread with * at a call site (accepted by extern handlers only)"""
+
+    def __init__(self, sv):
+        self.sv = sv
+
+
 class CallMixin:
     # ------------------------------------------------------------------
     def frame_fn(self):
@@ -187,6 +197,10 @@ class CallMixin:
         if isinstance(obj, RaiseEx):
             if name == "args":
                 return tuple(obj.payload or ())
+            ty = EXC_ATTRS.get((obj.cls, name))
+            if ty is not None:
+                # raised by a contract: the attribute is an unconstrained value of its declared sort
+                return ty.fresh(f"{obj.cls}_{name}")
             raise Unsupported(f"exception attribute {name}")
         if isinstance(obj, (SDict, PairList, tuple, list, str, bytes, int)):
             return BuiltinMethod(obj, name, obj_expr)
@@ -275,6 +289,10 @@ class CallMixin:
             if isinstance(a, ast.Starred):
                 v = self.iterable_view(self.eval(a.value))
                 if not isinstance(v, (tuple, list)):
+                    sv = self.eval(a.value)
+                    if isinstance(sv, SV) and isinstance(f, ExternMethod):
+                        args.append(StarSeq(sv))  # only extern handlers that declare it accept a symbolic *seq
+                        continue
                     raise Unsupported("*args with symbolic sequence")
                 args.extend(v)
             else:
@@ -300,6 +318,8 @@ class CallMixin:
         return self.call_value(f, args, kwargs, e)
 
     def call_value(self, f, args, kwargs, node):
+        if any(isinstance(a, StarSeq) for a in args) and not (isinstance(f, ExternMethod) and self.extern_handler("ext:" + f.name)):
+            raise Unsupported("*args with symbolic sequence")
         if isinstance(f, FuncDef):
             return self.call_function(f, args, kwargs, node)
         if isinstance(f, BoundMethod):
